@@ -758,6 +758,9 @@ def runOp (c : CaseSt) (t : List String) : String × CaseSt :=
       let (st, panicked) := Index.analyze c.pfx false c.st (pathOf p) v
       (if panicked then "PANIC" else "ok", { c with st := st })
   | ["close", p] => ("ok", { c with st := c.st.closeFile (pathOf p) })
+  -- the workspace folder set to a sub-directory of the case root: resolution never consults the workspace root, and
+  -- the files below it are analysed explicitly by the case right afterwards (same texts), so the state is unchanged
+  | ["wsroot", _] => ("ok", c)
   | "evictsync" :: _ =>
     -- `evict_cache_if_needed` removes, for the files it picks, exactly what `cleanup_file_cache` removes;
     -- which files it picked is an input (hint evicted)
